@@ -21,13 +21,14 @@ from . import lexgen
 from .ref import refsem
 
 def rule_id(rule):
+    """The class that defines the rule's expansion, as 'module.Class' -- the call site a
+    root cause lives at (several registered rules may inherit one expansion)."""
     cls = type(rule)
-    # the class that actually defines the expansion
     for k in cls.__mro__:
         if any(n in k.__dict__ for n in ('_get_sdw_targets', '_get_sd_targets', '_get_node_targets',
                                           '_get_constant_nodes', '_find_closing_node', '_branch_target_hook', '_get_targets')):
-            return '%s@%s' % (cls.__name__, k.__module__.rsplit('.', 1)[-1] + ('.' + k.__name__ if k.__name__ != cls.__name__ else ''))
-    return '%s@%s' % (cls.__name__, cls.__module__.rsplit('.', 1)[-1])
+            return '%s.%s' % (k.__module__.rsplit('.', 1)[-1], k.__name__)
+    return '%s.%s' % (cls.__module__.rsplit('.', 1)[-1], cls.__name__)
 
 def node_sat(sem, model, node, frames=True):
     """Does the R1 model satisfy a node (designation marker at its world)? None = n/a.
